@@ -353,6 +353,37 @@ impl<'r, 'a, 'ast> Visit<'ast> for Coll<'r, 'a> {
         }
         visit::visit_stmt(self, st)
     }
+    fn visit_arm(&mut self, arm: &'ast syn::Arm) {
+        // R5: reference patterns `&x` in a match arm -> bind `x` (a reference) and read it as `(*x)` in the arm
+        if self.r.opts.has_rw("refpat") {
+            struct RefPats<'x>(Vec<(&'x syn::PatReference, String)>);
+            impl<'x> Visit<'x> for RefPats<'x> {
+                fn visit_pat_reference(&mut self, pr: &'x syn::PatReference) {
+                    if let Pat::Ident(pi) = &*pr.pat {
+                        self.0.push((pr, pi.ident.to_string()));
+                    }
+                }
+            }
+            let mut rp = RefPats(vec![]);
+            rp.visit_pat(&arm.pat);
+            if !rp.0.is_empty() {
+                self.r.note("R5 reference pattern `&x` -> binding `x` read as `(*x)`");
+                for (pr, name) in &rp.0 {
+                    self.edits.push((range(pr.span()), name.clone()));
+                    self.r.renames.borrow_mut().insert(name.clone(), format!("(*{})", name));
+                }
+                if let Some((_, g)) = &arm.guard {
+                    self.edits.push((range(g.span()), self.r.expr(g)));
+                }
+                self.edits.push((range(arm.body.span()), self.r.expr(&arm.body)));
+                for (_, name) in &rp.0 {
+                    self.r.renames.borrow_mut().remove(name);
+                }
+                return;
+            }
+        }
+        visit::visit_arm(self, arm)
+    }
     fn visit_field(&mut self, f: &'ast syn::Field) {
         if self.r.opts.get("pubfields").is_some() && matches!(f.vis, syn::Visibility::Inherited) {
             if let Some(id) = &f.ident {
